@@ -59,7 +59,9 @@ Assigns == UNION {{"local v" \o eq \o e, "v" \o eq \o e} : eq \in {"=", " = ", "
            \cup {"local v, w = 1, 's'", "v, w.x = f()", "local v <const> = 1", "local v", "local v <close> = f()"}
 CallStmts == Calls
 Body == {"v = 1", "f 's'", "f{1}", "f('s')", "local w = {1,2,};", "return", "return a, 's'", ";", "v = 1; w = 2",
-         "-- only a comment", "f(a) -- trailing", "if a then v = 1 end", "--[[ blk ]] v = 1", "break"}
+         "-- only a comment", "f(a) -- trailing", "if a then v = 1 end", "--[[ blk ]] v = 1", "break",
+         "v = [[" \o NL \o "    keep" \o NL \o "this]]", "--[[" \o NL \o "      c" \o NL \o "d ]]" \o NL \o "v = 2",
+         "local t = {" \o NL \o "        1, 2," \o NL \o "  3 }"}
 BodyNoBreak == Body \ {"break"}
 Blocks == UNION {{"if " \o c \o " then" \o NL \o "  " \o b \o NL \o "end",
                   "if " \o c \o " then " \o b \o " end",
